@@ -361,7 +361,7 @@ fn c16_build(c: &C16Case) -> Case {
     actions.extend(round);
     recorders.push(vec![]);
   }
-  Case { root, hots: vec![HotKind::Harness], hot_illformed: false, conn: None, conn_take: None, recorders, actions }
+  Case { root, hots: vec![HotKind::Harness], hot_illformed: false, conn: None, conn_take: None, conn_take_only: None, recorders, actions }
 }
 
 fn c16_check(_ctx: &Ctx, c: &C16Case) -> Report {
@@ -730,7 +730,7 @@ fn c16_conc_strategy(_ctx: &Ctx) -> BoxedStrategy<C16ConcCase> {
           hots: vec![HotKind::Harness],
           hot_illformed: false,
           conn: None,
-          conn_take: None,
+          conn_take: None, conn_take_only: None,
           recorders: vec![vec![]],
           actions: vec![Action::Subscribe(0)],
         };
@@ -768,7 +768,7 @@ fn c16_conc_strategy(_ctx: &Ctx) -> BoxedStrategy<C16ConcCase> {
         hots: vec![HotKind::Harness; if merged { 2 } else { 1 }],
         hot_illformed: false,
         conn: None,
-        conn_take: None,
+        conn_take: None, conn_take_only: None,
         recorders: vec![vec![]],
         actions: vec![Action::Subscribe(0)],
       };
